@@ -1109,6 +1109,10 @@ class DiskRefsContainer(RefsContainer):
         ):
             # No cache: no peeled refs were read, or this ref is loose
             return None
+        if self.read_loose_ref(name) is not None:
+            # A loose ref overrides the packed entry of the same name; what
+            # packed-refs knows about the old value says nothing about it
+            return None
         if name in self._peeled_refs:
             return self._peeled_refs[name]
         else:
